@@ -4,6 +4,7 @@ from vf import core
 
 
 def run():
+    core.gen_roots()
     r = subprocess.run(["lake", "build"], cwd=core.LEAN)
     if r.returncode != 0:
         return 1
